@@ -368,7 +368,7 @@ def plan_align(ctx):
         for _ in range(ctx.scale(4, 12)):
             plan.append(dict(fn=fn, ck=rng.choice(['generic', 'minimal', 'planar']), rk='uniform', N=rng.choice([3, 4, 5]),
                              noise=rng.choice([0.3, 0.5]), nk=rng.choice(['iso', 'in-plane']), s=1.0, ws=True, shape=()))
-    n = ctx.scale(64, 2400)
+    n = ctx.scale(64, 1400)
     for _ in range(n):
         fn = rng.choice(['svdtf', 'svdstf'])
         ck = rng.choice(CLOUD_KINDS)
@@ -410,8 +410,9 @@ def align_block(ctx, pp, torch):
             flip = det3(mm(it['U'], it['Vh'])) < 0
             i = len(meta)
             rec = dict(fn=fn, src=src, tgt=tgt, with_scale=pl['ws'], shape=list(shape), item=b, exact=(pl['noise'] == 0.0))
-            br = '%s:%s:%s:region%d:%s:%s' % (fn, 'reflection' if flip else 'no-reflection', rank_class(it['S']), region_of(R_out),
-                                            'noise' if pl['noise'] > 0 else 'exact', 'batched' if shape else 'single')
+            br = '%s:%s:%s:region%d' % (fn, 'reflection' if flip else 'no-reflection', rank_class(it['S']), region_of(R_out))
+            ctx.count('%s:%s' % (fn, 'noisy' if pl['noise'] > 0 else 'exact-correspondences'))
+            ctx.count('%s:%s' % (fn, 'batched' if shape else 'single'))
             ctx.case((fn, pl['ws'], tuple(map(tuple, src)), tuple(map(tuple, tgt))), nontrivial=len(src) >= 3, branch=br,
                      sample=dict(fn=fn, source=src, target=tgt, impl_out=o, U=it['U'], S=it['S'], Vh=it['Vh']) if (i % 97 == 3 and len(src) <= 5) else None)
             ctx.count('cloud:' + pl['ck'])
@@ -689,14 +690,15 @@ def se3_apply_np(v, P):
 
 def gen_icp(rng, kind, N):
     """source, target = permuted exact rigid perturbation of the source that is inside the basin:
-    every displacement < 1/4 of the smallest distance between two target points"""
+    every displacement < 1/4 of the smallest distance between two target points (so the very first
+    closest-point assignment is the true correspondence, with margin left for an init / a shift)"""
     np = np_()
     while True:
         src = gen_cloud(rng, 'planar' if kind == 'planar' else ('planar-tilted' if kind == 'planar-tilted' else 'generic'), N)
         X = np.asarray(src)
         D = ((X[:, None, :] - X[None, :, :]) ** 2).sum(-1) ** 0.5 + np.eye(N) * 1e9
         dmin = float(D.min())
-        if dmin > 1e-3 * float(np.abs(X - X.mean(0)).max()):
+        if dmin > 0.02 * float(np.abs(X - X.mean(0)).max()):
             break
     ax = unit(rng)
     ext = float(np.abs(X).max()) + 1e-9
@@ -711,7 +713,7 @@ def gen_icp(rng, kind, N):
     rng.shuffle(perm)
     tgt = [[float(v) for v in Y[j]] for j in perm]
     src = [[float(v) for v in p] for p in src]
-    return src, tgt, dict(R=R, t=t)
+    return src, tgt, dict(R=R, t=t, dmin=dmin, ext=ext)
 
 
 def run_icp(pp, torch, srcs, tgts, shape, steps, patience, init, share_target):
@@ -765,13 +767,17 @@ def icp_block(ctx, pp, torch):
         if share:
             # one target cloud for the whole batch: sources are the target moved back by different small motions
             base = trip[0]
-            trip = [base] + [(list(map(list, np.asarray(base[0]) + np.asarray([rng.uniform(-1, 1) * 1e-3 for _ in range(3)]))), base[1], base[2]) for _ in range(B - 1)]
+            trip = [base] + [(list(map(list, np.asarray(base[0]) + np.asarray([rng.uniform(-1, 1) * 0.05 * base[2]['dmin'] for _ in range(3)]))), base[1], base[2]) for _ in range(B - 1)]
             trip = [([[float(v) for v in p] for p in s_], t_, tr_) for s_, t_, tr_ in trip]
         srcs, tgts = [t_[0] for t_ in trip], [t_[1] for t_ in trip]
         use_init = rng.random() < 0.35
         init = None
         if use_init:
-            x = torch.tensor([rng.gauss(0, 1) * 1e-3 for _ in range(6)], dtype=torch.float64)
+            # small enough to stay inside the basin: rotation moves no point by more than 0.09 dmin, translation 0.05 dmin
+            dm = min(t_[2]['dmin'] for t_ in trip)
+            ex = max(t_[2]['ext'] for t_ in trip)
+            ax, dr = unit(rng), unit(rng)
+            x = torch.tensor([dr[j] * 0.05 * dm for j in range(3)] + [ax[j] * 0.1 * dm / (2 * ex) for j in range(3)], dtype=torch.float64)
             init = pp.se3(x).Exp()
         steps, patience = rng.randint(3, 25), rng.randint(1, 5)
         rec = dict(call='ICP', src=srcs, tgt=tgts, shape=list(shape), steps=steps, patience=patience,
